@@ -66,7 +66,9 @@ def must_sites(fx, f, pred, scope_re, depth=3, _stack=(), escapes=None):
     return out
 
 
-def scope(fx, f, scope_re, depth=3):
+def scope(fx, f, scope_re, depth=3, single_caller=False):
+    """f and the helpers reachable from it; with single_caller=True only helpers that have exactly one call site in the analysed functions of the scope (a block or tail that was
+    split off f), not shared routines that other entry points call as well"""
     out, work = [f], [(f, depth)]
     while work:
         g0, d = work.pop()
@@ -76,6 +78,8 @@ def scope(fx, f, scope_re, depth=3):
             if c.is_call():
                 h = helper_of(fx, c, scope_re)
                 if h is not None and h not in out:
+                    if single_caller and len(call_sites_of(fx, h, scope_re)) != 1:
+                        continue
                     out.append(h)
                     work.append((h, d - 1))
     return out
@@ -90,3 +94,47 @@ def call_sites_of(fx, g, scope_re='.'):
             if c.is_call() and (c.get('fn') == g.id or ((c.get('q') or '') == g.q and helper_of(fx, c, '.') is g)):
                 out.append((h, c))
     return out
+
+
+def atoms_at_ip(fx, f, g, node, scope_re, depth=3):
+    """facts that hold when control reaches `node` of g, seen from f: the dominating atoms inside g (msa.guards.atoms_at), and — when g is a helper with a single call site in the
+    scope — the atoms that dominate that call site, plus, for every atom that tests a parameter of g, what the same test says about the argument passed at the call site."""
+    from . import guards as G
+    from . import ast as A
+    atoms = list(G.atoms_at(g, node))
+    if g is f or depth <= 0:
+        return atoms
+    sites = call_sites_of(fx, g, scope_re)
+    if len(sites) != 1:
+        return atoms
+    (h, c) = sites[0]
+    pidx = dict((p_['d'], k) for k, p_ in enumerate(g.params) if p_.get('d') is not None)
+    args = c.args()
+    if c['k'] == 'CXXOperatorCallExpr' and len(args) == len(g.params) + 1:
+        args = args[1:]
+    extra = []
+    for (a, t) in atoms:
+        a0 = A.strip_casts(a)
+        if a0['k'] == 'DeclRefExpr' and a0.get('d') in pidx and pidx[a0['d']] < len(args):
+            extra += G.atoms_of_cond(h, args[pidx[a0['d']]], t)
+    return atoms + extra + atoms_at_ip(fx, f, h, c, scope_re, depth - 1)
+
+
+def resolve_arg(fx, g, expr, scope_re, depth=3):
+    """(function, expression) that `expr` of g stands for, seen from g's caller: a reference to a parameter of a helper with a single call site is replaced by the argument passed there"""
+    from . import ast as A
+    e = A.strip_casts(expr)
+    if depth <= 0 or e['k'] != 'DeclRefExpr' or e.get('d') is None:
+        return g, expr
+    for k, p_ in enumerate(g.params):
+        if p_.get('d') == e['d']:
+            sites = call_sites_of(fx, g, scope_re)
+            if len(sites) != 1:
+                return g, expr
+            (h, c) = sites[0]
+            args = c.args()
+            if c['k'] == 'CXXOperatorCallExpr' and len(args) == len(g.params) + 1:
+                args = args[1:]
+            if k < len(args):
+                return resolve_arg(fx, h, args[k], scope_re, depth - 1)
+    return g, expr
